@@ -32,6 +32,7 @@ ASSUMPTIONS = ['deviation bound 2 (quick) / 3 (thorough) over a reduced mutation
 
 
 def bounds(tier):
+    # (wave 6: iterators that have raised are asked again twice)
     return ('quick: II, OO, fs x 4 kinds x 2 implementations, N=4 @2/2: all 1-deviation schedules with the '
             'full mutation alphabet, all 2-deviation schedules with the reduced alphabet on 4 iterator '
             'forms; thinned deep trees (8 keys built ascending @2/2, every deletion subset): all '
